@@ -394,6 +394,8 @@ class Env:
                   "VALUES ('stage', NEW.id, OLD.status, NEW.status, json_object('jc', json_extract(NEW.context, '$._jump_count'), "
                   "'old_bypass', json_extract(OLD.context, '$._jump_bypass'), 'old_fired', json_extract(OLD.context, '$._join_fired'), "
                   "'old_activated', json_extract(OLD.context, '$._activated_branches'))); END")
+        c.execute("CREATE TRIGGER IF NOT EXISTS verif_st_add AFTER INSERT ON stage_executions BEGIN "
+                  "INSERT INTO verif_audit(kind, ent, old, new) VALUES ('stage_add', NEW.id, NULL, NEW.status); END")
         c.execute("CREATE TRIGGER IF NOT EXISTS verif_tk AFTER UPDATE OF status ON task_executions "
                   "WHEN OLD.status IS NOT NEW.status BEGIN INSERT INTO verif_audit(kind, ent, old, new) "
                   "VALUES ('task', NEW.id, OLD.status, NEW.status); END")
